@@ -329,6 +329,9 @@ func (self Node) InterfaceMap(opts *Options) (map[interface{}]interface{}, error
 			ret[&x] = vv
 		case map[thrift.FieldID]interface{}:
 			ret[&x] = vv
+		case []byte:
+			// CastStringAsBinary: a []byte is not hashable, present the key as a string
+			ret[string(x)] = vv
 		default:
 			ret[kv] = vv
 		}
